@@ -4,7 +4,8 @@ import LanceModel.C02.Model
 C02 driver: replays a schedule on the LTS of Model.lean and prints, after every line, the released call and
 the whole state in the harness's canonical form:
   `<what> | fin=<v:c,…> | tmp=<i,…> | lock=<-|i> | t0=<next call or =result> t1=…`
-Lines:  `cfg <condput|rename|lock|naive> <w<v>|r<v>|l>…`   tasks 0.. : writer of version v / reader of version v / latest reader
+Lines:  `cfg <condput|rename|lock|lockc|naive> <w<v>|r<v>|l>…`   (lockc: a CommitLock that refuses committed versions)
+           tasks 0.. : writer of version v / reader of version v / latest reader
         `s <task> <ok|fb|lr|dup>`   release the parked call of <task> with that fault
         `c <task>`                  crash <task>
         `end`                       crash everything still running
@@ -18,15 +19,16 @@ def maxV : Nat := 9
 structure DS where
   cfgd : Bool
   h : Handler
+  lc : Bool                -- the CommitLock refuses `lock(v)` for committed versions
   tg : List Nat            -- target version per task
   s : State
   n : Nat
   crashed : List Nat
 
 def initDS : DS :=
-  { cfgd := false, h := .condPut, tg := [], s := init .condPut (fun _ => .reader), n := 0, crashed := [] }
+  { cfgd := false, h := .condPut, lc := false, tg := [], s := init .condPut (fun _ => .reader), n := 0, crashed := [] }
 
-def cfgOf (d : DS) : Cfg := { tgt := fun i => d.tg.getD i 0, top := maxV }
+def cfgOf (d : DS) : Cfg := { tgt := fun i => d.tg.getD i 0, top := maxV, lockChecks := d.lc }
 
 def showRes : Res → String
   | .ok => "=ok"
@@ -77,11 +79,12 @@ def parseFault : String → Option (Fault × String)
   | "dup" => some (.dup, "dup")
   | _ => none
 
-def parseHandler : String → Option Handler
-  | "condput" => some .condPut
-  | "rename" => some .rename
-  | "lock" => some .lock
-  | "naive" => some .naive
+def parseHandler : String → Option (Handler × Bool)
+  | "condput" => some (.condPut, false)
+  | "rename" => some (.rename, false)
+  | "lock" => some (.lock, false)
+  | "lockc" => some (.lock, true)
+  | "naive" => some (.naive, false)
   | _ => none
 
 /-- `w3` ↦ (writer, 3); `r3` ↦ (reader, 3); `l` ↦ (latest, 0) -/
@@ -117,10 +120,10 @@ def step (d : DS) (line : String) : DS × String :=
   | "cfg" :: hn :: specs =>
     if d.cfgd then (d, "bad") else
     match parseHandler hn, specs.mapM parseSpec with
-    | some h, some sp =>
+    | some (h, lc), some sp =>
       if sp.length = 0 ∨ sp.length > 6 then (d, "bad") else
       let roles : Nat → Role := fun i => (sp.map (·.1)).getD i .reader
-      let d' : DS := { cfgd := true, h := h, tg := sp.map (·.2), s := init h roles, n := sp.length, crashed := [] }
+      let d' : DS := { cfgd := true, h := h, lc := lc, tg := sp.map (·.2), s := init h roles, n := sp.length, crashed := [] }
       (d', "init | " ++ dump d')
     | _, _ => (d, "bad")
   | ["s", t, f] =>
